@@ -106,9 +106,11 @@ def gen_c02(rng, tier, n_random, n_exh):
                     v = rng.choice([1, 1, -1, 2, Fraction(1, 2), -3])
                     trips.append(f"{fs(s)}:{fs(e)}:{fs(v)}")
                 opts = ["route=" + rng.choice(["list", "tuple", "ndarray", "series", "frame"])]
-                if rng.random() < 0.3:
+                # "a shorter start or end vector is padded": one of them may be shorter, the other gives the length
+                t = rng.random()
+                if t < 0.3:
                     opts.append("trime=1")
-                if rng.random() < 0.15:
+                elif t < 0.45:
                     opts.append("trims=1")
                 if rng.random() < 0.2:
                     opts.append("allone=1")
